@@ -114,7 +114,7 @@ def main(tier, replay):
         if not rec['bad'] and len(chk.samples) < 3:
             chk.sample({'flavour': rec['job'][0], 'producers': rec['job'][2], 'events_per_producer': rec['job'][3], 'yield_permille': rec['job'][4], 'external_events_processed': rec['processed']})
     chk.add('external_events_processed', processed); chk.add('distinct_interleaving_signatures', len(sigs)); chk.add('tsan_reports_outside_anchored_files', dict(other))
-    need = 20 if tier == 'quick' else 500
+    need = 20 if tier == "quick" else 150
     if len(sigs) < need: chk.inconc('only %d distinct interleaving signatures observed (< %d)' % (len(sigs), need))
     chk.rule = ('each run = N in {2,4,8} producer threads x M uniquely named events against one stepping thread mixing step(0)/step(1)/step(5), or sleeping in step(3000) (1 of 4 runs: every enqueue must wake it within 2 s) (in 1 of 5 runs the producers start before the first step()), seeded yields/sleeps at the USCXML_VERIF schedule points; '
                 'TSan build (3 of 4 runs) and ASan build; offline checker: every sent event processed exactly once, per-producer order, and per external event the exact internal sequence (micro step, eventless micro step, i.a, i.b, i.c, one stable notice). '
